@@ -108,6 +108,12 @@ def main() -> None:
     out: dict = {"ok": True, "failed": None, "misbound": []}
     step = 0
     fault = req.get("fault")
+    if req.get("werror"):
+        # only now (the probe's own imports are done): from here on every warning is an error,
+        # as under ``python -W error`` / pytest's filterwarnings = error
+        import warnings
+
+        warnings.simplefilter("error")
     try:
         for module, form in req["imports"]:
             cur = [module, form, "history", step]
